@@ -141,7 +141,7 @@ def _validate_record(datum, schema, named_schemas, parent_ns, raise_errors, opti
     Check that the data is a Mapping type with all schema defined fields
     validated as True.
     """
-    _, fullname = schema_name(schema, parent_ns)
+    _, fullname = schema_name(schema, "")
     return (
         isinstance(datum, Mapping)
         and not ("-type" in datum and datum["-type"] != fullname)
